@@ -3191,3 +3191,150 @@ def r06_2(ctx, rule):
              'the id predicate has the highest precedence' if ok else
              'the id predicate is entry %d of %d: %s outranks it, and that predicate ignores id, metadata and execution count -- of two cells with equal content it pairs the '
              'wrong twins, so a deletion on one side and an edit on the other land on the same cell' % (id_based[0] + 1, len(lst.elts), ast.unparse(lst.elts[-1])), lst)
+
+
+@extra('C03', 'R03.27', 'a resolver that writes an entry of its own naming into the merged object (the `nbdime-conflicts` record, the LOCAL_/REMOTE_ copies of an attachment) first drops '
+       'the surviving decisions that target that entry: base may already hold one from an earlier merge, and a side that removed or edited it leaves a second diff entry on the '
+       'same key -- the patcher refuses that and the merge aborts', 2)
+def r03_27(ctx, rule):
+    from ..util import local_defs
+    from ..cfg import CFG
+    repo, cg = ctx.repo, ctx.cg
+    n = 0
+    for fid, fn in sorted(repo.functions.items()):
+        if not fid.startswith('nbdime.merging.strategies:'):
+            continue
+        defs = local_defs(fn)
+        customs = [c for c in calls_in(fn, nested=False) if isinstance(c.func, ast.Attribute) and c.func.attr == 'custom']
+        if not customs:
+            continue
+        # keys of the function's own making that end up in an op_add / op_replace
+        own = []
+        for c in calls_in(fn, nested=False):
+            if not any(t in (('func', 'nbdime.diff_format:op_add'), ('func', 'nbdime.diff_format:op_replace')) for t in cg.resolve(c.func, fn)) or not c.args:
+                continue
+            k = c.args[0]
+            if isinstance(k, ast.Constant) and isinstance(k.value, str):
+                own.append((k, c))
+            elif isinstance(k, ast.Name):
+                ds = [v for v, kind, st in defs.get(k.id, []) if kind == 'assign']
+                if ds and all(isinstance(v, ast.BinOp) and any(isinstance(x, ast.Constant) and isinstance(x.value, str) for x in (v.left, v.right)) for v in ds):
+                    own.append((k, c))
+        if not own:
+            continue
+        builder = dotted(customs[0].func.value)
+        # filters of the surviving decisions: assignments to <builder>.decisions, or calls of a helper that makes one for its first parameter
+        filters = []
+        for st in walk_no_nested(fn):
+            if isinstance(st, ast.Assign) and any(isinstance(t, ast.Attribute) and t.attr == 'decisions' and dotted(t.value) == builder for t in st.targets):
+                filters.append((st, st.value))
+            if isinstance(st, ast.Expr) and isinstance(st.value, ast.Call) and st.value.args and dotted(st.value.args[0]) == builder:
+                for t in cg.resolve(st.value.func, fn):
+                    if t[0] == 'func' and t[1] in repo.functions:
+                        h = repo.functions[t[1]]
+                        p0 = h.args.args[0].arg if h.args.args else None
+                        if any(isinstance(x, ast.Assign) and any(isinstance(tt, ast.Attribute) and tt.attr == 'decisions' and dotted(tt.value) == p0 for tt in x.targets)
+                               for x in walk_no_nested(h)):
+                            filters.append((st, st.value))
+        seen_keys = set()
+        for k, c in own:
+            key_txt = ast.unparse(k)
+            if key_txt in seen_keys:
+                continue
+            seen_keys.add(key_txt)
+            n += 1
+
+            def mentions(e):
+                for x in ast.walk(e):
+                    if isinstance(k, ast.Constant) and isinstance(x, ast.Constant) and x.value == k.value:
+                        return True
+                    if isinstance(k, ast.Name) and isinstance(x, ast.Name) and x.id == k.id:
+                        return True
+                return False
+            ev = [st for st, e in filters if mentions(e)]
+            ok = bool(ev)
+            ctx.inst(rule, fid, 'writes %s via %s' % (key_txt, repo.norm(c)[:50]), ok,
+                     'surviving decisions on that entry are dropped first (%s)' % repo.norm(ev[0])[:70] if ok else
+                     'the surviving (non-conflicted) decisions are kept whatever they target: if base already has %s and one side removed or changed it, the decisions now hold a '
+                     'remove/patch AND this add/replace of the same key -- patch_dict asserts "cannot replace deleted key" / "multiple diff entries target same key" and the '
+                     'merge aborts' % key_txt, c)
+    if n < 2:
+        raise AnalysisError('R03.27: fewer than two resolver-named entries found in the strategies module')
+
+
+def _r_level_relative_push(ctx, rule):
+    """Some actions are resolved relative to the decision's own path (resolve_action reads base[...] for them: clear, remove, clear_all, take_max).  Moving such
+    a decision to an outer level (push_patch_decision wraps its diffs in patches and shortens its path) changes what the action does: `clear` of key
+    execution_count inside output 0 becomes `clear` of item 0 of the outputs list -- the whole output turns into {}."""
+    from ..util import if_chain, compare_eq_const, local_defs
+    from .c03 import strategy_table, _action_strategies
+    from .. import mergefacts as mf
+    repo, cg = ctx.repo, ctx.cg
+    ra = repo.func(mf.DEC + ':resolve_action')
+    bparam = ra.args.args[0].arg
+    rel_actions = set()
+    for n in walk_no_nested(ra):
+        if isinstance(n, ast.If):
+            for test, body, nd in if_chain(n)[0]:
+                consts = {x.value for x in ast.walk(test) if isinstance(x, ast.Constant) and isinstance(x.value, str)}
+                if consts and any(isinstance(x, ast.Name) and x.id == bparam for st in body for x in ast.walk(st)):
+                    rel_actions |= consts
+            break
+    if not rel_actions:
+        raise AnalysisError('resolve_action: no action that reads the base value found')
+    act2strat = _action_strategies(repo, cg)
+    rel_strats = set()
+    for a in rel_actions:
+        rel_strats |= act2strat.get(a, set())
+    table, _tr = strategy_table(ctx)
+    PUSH = mf.DEC + ':push_patch_decision'
+    # resolver functions from which a push is reached, and the strategy names that dispatch to them
+    sites = []
+    for fid, fn in sorted(repo.functions.items()):
+        if not fid.startswith(mf.STR + ':'):
+            continue
+        for c in calls_in(fn, nested=True):
+            if ('func', PUSH) in cg.resolve(c.func, fn):
+                sites.append((fid, c))
+    if not sites:
+        ctx.inst(rule, mf.STR, 'no decision is moved to another level in the strategies module', True, 'nothing to change meaning', None)
+        return
+    dispatch = {}
+    for dfid in (mf.STR + ':resolve_conflicted_decisions_list', mf.STR + ':resolve_conflicted_decisions_dict', mf.STR + ':resolve_conflicted_decisions_strings'):
+        df = repo.func(dfid)
+        for n in walk_no_nested(df):
+            if isinstance(n, ast.If):
+                for test, body, nd in if_chain(n)[0]:
+                    ce = compare_eq_const(test)
+                    if not ce:
+                        continue
+                    for st in body:
+                        for c in ast.walk(st):
+                            if isinstance(c, ast.Call):
+                                for t in cg.resolve(c.func, df):
+                                    if t[0] == 'func':
+                                        dispatch.setdefault(t[1], set()).update(x for x in ce[1] if isinstance(x, str))
+    for site_fid, c in sites:
+        resolvers = {r for r in dispatch if r == site_fid or site_fid in cg.reachable([r])}
+        if not resolvers:
+            raise AnalysisError('%s: push_patch_decision is called but no strategy dispatch reaches this function' % site_fid)
+        for r in sorted(resolvers):
+            rf = repo.functions[r]
+            keeps = any(isinstance(x, ast.Call) and isinstance(x.func, ast.Attribute) and x.func.attr == 'extend' and (dotted(x.func.value) or '').endswith('.decisions') for x in ast.walk(rf)) or \
+                any(isinstance(x, ast.Assign) and any(isinstance(t, ast.Attribute) and t.attr == 'decisions' for t in x.targets) and
+                    not (isinstance(x.value, ast.List) and not x.value.elts) and not any(isinstance(y, ast.Call) and ('func', PUSH) in cg.resolve(y.func, rf) for y in ast.walk(x.value))
+                    for x in ast.walk(rf))
+            attached = sorted(p for p, strats in table.items() if strats & dispatch[r])
+            hazard = sorted(q for q, strats in table.items() if strats & rel_strats and any(q.startswith(p.rstrip('/') + '/') for p in attached))
+            ok = not (keeps and hazard)
+            ctx.inst(rule, r, 'moves decisions to its own level via %s; attached at %s' % (site_fid.split(':')[1], attached), ok,
+                     'no level-relative strategy (%s) is attached below these paths' % sorted(rel_strats) if ok else
+                     'decisions below %s can carry the level-relative action of %s (strategy %s); this resolver moves every decision up to its own level and keeps the ones it '
+                     'does not resolve: after the move the action applies to the ITEM (clear of key execution_count in output 0 becomes clear of output 0 = {}), and the merged '
+                     'notebook is invalid' % (attached, hazard, sorted(rel_strats & set().union(*[table[q] for q in hazard]))), c)
+
+
+@extra('C04', 'R04.11', 'a decision whose action is resolved relative to its own path (clear, remove, clear_all, take_max) is not moved to another level and then kept: '
+       'resolvers that re-level decisions are attached only where no such strategy lies below', 1)
+def r04_11(ctx, rule):
+    _r_level_relative_push(ctx, rule)
